@@ -18,6 +18,9 @@ def dispatch (req : Sexp) : Except String Sexp :=
     | "reads" => Driver.handleReads args
     | "simp" => Driver.handleSimp args
     | "pure" => Driver.handlePure args
+    | "threads" => Driver.handleThreads args
+    | "hop" => Driver.handleHop args
+    | "hopmod" => Driver.handleHopMod args
     | "scoped" => Driver.handleScoped args
     | "mentions" => Driver.handleMentions args
     | "floatprod" => Driver.handleFloatProd args
